@@ -49,6 +49,16 @@ let handle cmd =
     String.concat " " (List.map (fun (a, b) -> string_of_int (int_of_z a) ^ "," ^ string_of_int (int_of_z b)) (pairs n blk))
   | "cidx" -> let a = z_of_int (nint ()) in let b = z_of_int (nint ()) in let n = z_of_int (nint ()) in
     (match py_distance_array_index a b n with None -> "none" | Some z -> string_of_int (int_of_z z))
+  | "nw" -> let n = nint () in let m = nint () in
+    let sub = Array.init n (fun _ -> Array.init m (fun _ -> z_of_int (nint ()))) in
+    let ind = Array.init n (fun _ -> Array.init m (fun _ -> z_of_int (nint ()))) in
+    let get a i j = let i = int_of_nat i and j = int_of_nat j in if i < n && j < m then a.(i).(j) else Z0 in
+    let o0 = nint () in let o1 = nint () in let o2 = nint () in let bs = z_of_int (nint ()) in
+    let st k = if k = 0 then SD else if k = 1 then SU else SL in
+    let rows = List.init (n + 1) (fun i -> String.concat " " (List.init (m + 1) (fun j ->
+      string_of_int (int_of_z (nM (get sub) (get ind) bs (nat_of_int i) (nat_of_int j)))))) in
+    let p = tbo (get sub) (get ind) bs [st o0; st o1; st o2] (nat_of_int (n + m)) (nat_of_int n) (nat_of_int m) in
+    String.concat " ; " rows ^ " | " ^ String.concat "" (List.map (function SD -> "D" | SU -> "U" | SL -> "L") p)
   | "ed" -> let inner = if nint () = 0 then SqEuclid else AbsDiff in
     let s1 = rd_series () in let s2 = rd_series () in
     string_of_int (int_of_z (ed_model inner s1 s2))
